@@ -6,6 +6,7 @@ import (
 	"go/constant"
 	"go/token"
 	"go/types"
+	"sort"
 	"strings"
 
 	"golang.org/x/tools/go/ssa"
@@ -202,7 +203,7 @@ func checkC06(r *Report) {
 func checkC07(r *Report) {
 	p := loadResolve("", true)
 	pathTrusted(r)
-	r.Explain = "Path rules on the SSA control-flow graph of the Maven resolver's traversal. C07.a LOOP-ACCOUNT on the loop over a version's imports that calls findMatch: every path of an iteration ends in AddEdge, AddError or return, except two documented skips attached to the true edge of their guard: the artifact is excluded on this path (isExcluded) and scope == \"provided\" in multi-registry mode. C07.b PAIR: the AddNode in the loop is followed by an AddEdge to that node. C07.c GRAPH-WRITERS as for npm. C07.d RETRY-BOUND: the retry loop on incompatible requirements compares a counter that is incremented once per iteration with the constant maxRetries. C07.e NODE-REGISTERED: every table that records the id of a node added in the loop on some path records it on every continuing path, so the de-duplication tables that enforce one version per artifact stay in step with the graph. C07.f INHERITED-SET: the exclusion set stored in a traversal node is shared by reference with the nodes that inherit it and is therefore never written in place (a new node's set is built in the dependency's own freshly parsed map). C07.g INCOMPATIBLE-FIRST: inside the loop every AddEdge/AddNode for the match is behind the test 'this artifact is already resolved' (which raises the incompatible-requirements retry), except the edge to an exactly known artifact+version. C07.i RESOLVED-WITH-EDGE: every iteration that attaches the match to the graph leaves the declared artifact (the resolver's key: group:artifact with classifier and type) marked as resolved - the edge goes to an exactly known artifact+version, or the iteration sets the resolved mark before it ends - so a later declaration of that artifact in another version raises the incompatible-requirements retry instead of adding a second version. C07.h EXCLUDED-INERT: every table update and graph write of the loop lies on the not-excluded side of the isExcluded test, so an excluded declaration leaves no requirement, node or edge behind. Not decided: nearest-wins, range satisfaction, management override."
+	r.Explain = "Path rules on the SSA control-flow graph of the Maven resolver's traversal. C07.a LOOP-ACCOUNT on the loop over a version's imports that calls findMatch: every path of an iteration ends in AddEdge, AddError or return, except two documented skips attached to the true edge of their guard: the artifact is excluded on this path (isExcluded) and scope == \"provided\" in multi-registry mode. C07.b PAIR: the AddNode in the loop is followed by an AddEdge to that node. C07.c GRAPH-WRITERS as for npm. C07.d RETRY-BOUND: the retry loop on incompatible requirements compares a counter that is incremented once per iteration with the constant maxRetries. C07.e NODE-REGISTERED: every table that records the id of a node added in the loop on some path records it on every continuing path, so the de-duplication tables that enforce one version per artifact stay in step with the graph. C07.f INHERITED-SET: the exclusion set stored in a traversal node is shared by reference with the nodes that inherit it and is therefore never written in place (a new node's set is built in the dependency's own freshly parsed map). C07.g INCOMPATIBLE-FIRST: inside the loop every AddEdge/AddNode for the match is behind the test 'this artifact is already resolved' (which raises the incompatible-requirements retry), except the edge to an exactly known artifact+version. C07.j ROOT-REQUIREMENT: resolve() seeds the requirements table with the root's own version where it enters the root in the resolved set, so a cycle back to the root's artifact is mediated like any other declaration (nearest wins) instead of failing as incompatible. C07.i RESOLVED-WITH-EDGE: every iteration that attaches the match to the graph leaves the declared artifact (the resolver's key: group:artifact with classifier and type) marked as resolved - the edge goes to an exactly known artifact+version, or the iteration sets the resolved mark before it ends - so a later declaration of that artifact in another version raises the incompatible-requirements retry instead of adding a second version. C07.h EXCLUDED-INERT: every table update and graph write of the loop lies on the not-excluded side of the isExcluded test, so an excluded declaration leaves no requirement, node or edge behind. Not decided: nearest-wins, range satisfaction, management override."
 	fn := p.lookupFn("(*resolve/maven.resolver).resolve")
 	if fn == nil {
 		r.bad("C07.a/LOOP-ACCOUNT", "maven resolve", "", "function (*resolve/maven.resolver).resolve not found")
@@ -252,6 +253,55 @@ func checkC07(r *Report) {
 	incompatibleFirstRule(r, p, "C07.g/INCOMPATIBLE-FIRST", fn, l)
 	skippedInertRule(r, p, "C07.h/EXCLUDED-INERT", fn, l, exempt[0].match, "excluded")
 	resolvedWithEdgeRule(r, p, "C07.i/RESOLVED-WITH-EDGE", fn, l)
+	rootRequirementRule(r, p, "C07.j/ROOT-REQUIREMENT", fn, l)
+}
+
+// rootRequirementRule: resolve() enters the root in the resolved set before
+// the traversal starts. The version an artifact was resolved to is judged,
+// when the artifact is declared again, against the requirements recorded for
+// it; so the root's own version has to be recorded as the first requirement on
+// the root's artifact as well (a store into the requirements table outside the
+// traversal loops). Without it a dependency cycle that comes back to the
+// root's artifact at another soft version is compared with an empty history,
+// can never be compatible, and the resolution fails after its retries.
+func rootRequirementRule(r *Report, p *Prog, rule string, fn *ssa.Function, l *loop) {
+	loops := naturalLoops(fn)
+	isKeyStruct := func(t types.Type) bool {
+		_, ok := t.Underlying().(*types.Struct)
+		return ok
+	}
+	var seedResolved, seedReq []ssa.Instruction
+	for _, b := range fn.Blocks {
+		// only what runs once, before the traversal: outside every loop and on the way to the dependency loop
+		if innermostLoop(loops, b) != nil || !reaches(b, l.header, nil) || reaches(l.header, b, nil) {
+			continue
+		}
+		for _, in := range b.Instrs {
+			mu, ok := in.(*ssa.MapUpdate)
+			if !ok {
+				continue
+			}
+			mt, ok := mu.Map.Type().Underlying().(*types.Map)
+			if !ok || !isKeyStruct(mt.Key()) {
+				continue
+			}
+			if bt, ok := mt.Elem().Underlying().(*types.Basic); ok && bt.Kind() == types.Bool {
+				seedResolved = append(seedResolved, in)
+			}
+			if st, ok := mt.Elem().Underlying().(*types.Slice); ok && strings.HasSuffix(st.Elem().String(), "deps.dev/util/resolve.VersionKey") {
+				seedReq = append(seedReq, in)
+			}
+		}
+	}
+	key := fnKey(fn) + ": the root's own version is its artifact's first requirement"
+	switch {
+	case len(seedResolved) == 0:
+		r.bad(rule, key, p.pos(fn.Pos()), "the store that enters the root in the resolved set before the traversal was not found: anchor lost")
+	case len(seedReq) == 0:
+		r.bad(rule, key, p.pos(seedResolved[0].Pos()), "the root is entered in the resolved set before the traversal, but nothing is recorded for it in the requirements table: a later declaration of the root's own artifact (a cycle back to it at another soft version) is judged against an empty history and can never be compatible, so the resolution fails instead of keeping the root")
+	default:
+		r.ok(rule, key, p.pos(seedReq[0].Pos()), "the requirements table is seeded for the root next to the resolved set")
+	}
 }
 
 // resolvedWithEdgeRule: whenever an iteration of the dependency loop attaches
@@ -833,6 +883,56 @@ func climbReservesRule(r *Report, p *Prog, rule string, fn *ssa.Function) {
 		}
 	}
 	r.floor(rule, "reservations of protected/aliasProtected slots in Resolve", n, 3)
+	// sibling agreement: every loop that walks up and reserves slots distinguishes the same kinds of name.
+	// A node installed under an alias occupies the alias, so a loop that reserves only the package name
+	// leaves the alias unreserved on the levels it passes.
+	tables := map[*loop]map[string]bool{}
+	var order []*loop
+	for _, b := range fn.Blocks {
+		for _, in := range b.Instrs {
+			mu, ok := in.(*ssa.MapUpdate)
+			if !ok {
+				continue
+			}
+			ld, ok := mu.Map.(*ssa.UnOp)
+			if !ok {
+				continue
+			}
+			fa, ok := ld.X.(*ssa.FieldAddr)
+			if !ok || (fieldName(fa) != "protected" && fieldName(fa) != "aliasProtected") {
+				continue
+			}
+			if l := innermostLoop(loops, b); l != nil {
+				if tables[l] == nil {
+					tables[l] = map[string]bool{}
+					order = append(order, l)
+				}
+				tables[l][fieldName(fa)] = true
+			}
+		}
+	}
+	union := map[string]bool{}
+	for _, t := range tables {
+		for k := range t {
+			union[k] = true
+		}
+	}
+	for i, l := range order {
+		key := fmt.Sprintf("%s: climbing loop #%d reserves every kind of name", fnKey(fn), i+1)
+		var missing []string
+		for k := range union {
+			if !tables[l][k] {
+				missing = append(missing, k)
+			}
+		}
+		sort.Strings(missing)
+		if len(missing) > 0 {
+			r.bad(rule, key, blockPos(p, l.header), fmt.Sprintf("another loop of Resolve that walks up the install tree reserves %v as well, this one never does: a node installed under an alias occupies the alias, which stays unreserved on the levels this loop passes, so a later install there shadows it", missing))
+		} else {
+			r.ok(rule, key, blockPos(p, l.header), fmt.Sprintf("reserves %v like the other climbing loop", setNames(union)))
+		}
+	}
+	r.floor(rule, "climbing loops that reserve slots", len(order), 2)
 }
 
 // slotFreeRule: see checkC06 (C06.g).
